@@ -449,4 +449,7 @@ pub fn run(ctx: &Ctx) {
         ctx.require_class("random_history", "wraps_ring_end", 0.03);
         ctx.require_class("random_history", "shifted_run", 0.2);
     }
+    if ctx.tier == Tier::Thorough && !ctx.failed() {
+        crate::engine::fuzz::run_filter_ops(ctx, 1, 1_500_000);
+    }
 }
